@@ -12,6 +12,9 @@ Statement forms (tuples):
   ("cancel", fiber, msg) ("read", p, n) ("readt", p, n, ms) ("write", p, nbytes, ch) ("writet", p, nbytes, ch, ms)
   ("chunk", p, n) ("closew", p) ("closer", p) ("pwait", k) ("exitproc", k) ("deadline", ms, stmt)
   ("spawn", name, [stmts]) ("dump", tag) ("count", c) ("settle", n)
+  ("block", kind, [stmts])   kind = "try" | "defer" | "coro": the statements run inside ONE child fiber of the task that stays
+                             suspended across their waits (every single wait is additionally wrapped in its own `try`)
+  ("goself",)                (ev/go (fiber/root)): the running task schedules itself;  ("cancel", <own name>, msg) likewise
 Every waiting statement is logged:  L <tick> <fiber> :<label> <result or (:err msg)>.
 """
 
@@ -73,6 +76,7 @@ class Scenario:
         self.meta = {}
         self.labels = 0
         self.setup = []      # raw janet lines emitted after the object definitions
+        self.procflags = {}  # process name -> os/spawn flags (default :p ; :px = raise on non-zero exit status)
 
     def chan(self, name, cap=0):
         self.chans[name] = cap
@@ -82,22 +86,39 @@ class Scenario:
         self.pipes.append(name)
         return name
 
-    def proc(self, name):
+    def proc(self, name, flags="p"):
         self.procs.append(name)
+        self.procflags[name] = flags
         return name
 
     # ---------------------------------------------------------------- janet
-    def emit_stmts(self, stmts, fib, ind="  "):
+    def emit_stmts(self, stmts, fib, ind="  ", ctr=None):
         out = []
-        for i, st in enumerate(stmts):
+        ctr = ctr if ctr is not None else [0]
+        for st in stmts:
             k = st[0]
+            if k == "block":
+                inner = self.emit_stmts(st[2], fib, ind + "  ", ctr)
+                if st[1] == "try":
+                    out.append("%s(try (do\n%s)\n%s  ([e] (verif/log :escaped e)))" % (ind, "\n".join(inner), ind))
+                elif st[1] == "defer":
+                    out.append("%s(defer nil\n%s)" % (ind, "\n".join(inner)))
+                elif st[1] == "coro":
+                    out.append("%s(resume (coro\n%s))" % (ind, "\n".join(inner)))
+                else:
+                    raise ValueError(st)
+                continue
+            i = ctr[0]
+            ctr[0] += 1
             lab = "%s%d" % (fib.lower(), i)
             if k in WAITS:
                 out.append('%s(verif/log :%s (try %s ([e] [:err e])))' % (ind, lab, emit_wait(st)))
             elif k == "close":
                 out.append("%s(ev/chan-close %s)" % (ind, st[1]))
             elif k == "cancel":
-                out.append('%s(ev/cancel %s "%s")' % (ind, st[1], st[2]))
+                out.append('%s(ev/cancel %s "%s")' % (ind, "(fiber/root)" if st[1] == fib else st[1], st[2]))
+            elif k == "goself":
+                out.append("%s(ev/go (fiber/root))" % ind)
             elif k == "closew":
                 out.append("%s(ev/close %sw)" % (ind, st[1]))
             elif k == "closer":
@@ -124,7 +145,7 @@ class Scenario:
             out.append('(def [%sr %sw] (os/pipe))' % (p, p))
             out.append('(verif/name %sr "%sr") (verif/name %sw "%sw")' % (p, p, p, p))
         for k in self.procs:
-            out.append('(def %s (os/spawn ["/bin/sh" "-c" "read x; exit 7"] :p {:in :pipe}))' % k)
+            out.append('(def %s (os/spawn ["/bin/sh" "-c" "read x; exit 7"] :%s {:in :pipe}))' % (k, self.procflags.get(k, "p")))
         out += self.setup
         out += self.emit_stmts(self.main, "M", "")
         return "\n".join(out)
@@ -139,7 +160,7 @@ class Scenario:
                     return False
                 if st[0] == "deadline" and not ok([st[2]]):
                     return False
-                if st[0] == "spawn" and not ok(st[2]):
+                if st[0] in ("spawn", "block") and not ok(st[2]):
                     return False
             return True
         return ok(self.main)
@@ -186,6 +207,10 @@ class Scenario:
 
         def enc(stmts, name):
             toks = []
+            enc_into(stmts, name, toks)
+            fibers.append((name, toks))
+
+        def enc_into(stmts, name, toks):
             for st in stmts:
                 k = st[0]
                 if k in WAITS:
@@ -194,6 +219,14 @@ class Scenario:
                     toks.append("close %s" % st[1])
                 elif k == "cancel":
                     toks.append("cancel %s %s" % (st[1], st[2]))
+                elif k == "goself":
+                    toks.append("goself")
+                elif k == "block":
+                    toks.append("enter")
+                    sub = []
+                    enc_into(st[2], name, sub)
+                    toks.extend(sub)
+                    toks.append("leave")
                 elif k == "spawn":
                     enc(st[2], st[1])
                     toks.append("spawn %s" % st[1])
@@ -209,7 +242,6 @@ class Scenario:
                     toks.append("exitproc %s" % st[1])
                 else:
                     raise ValueError(st)
-            fibers.append((name, toks))
         enc(self.main, "M")
         lines = ["new %s" % self.id]
         for c, cap in self.chans.items():
@@ -218,7 +250,7 @@ class Scenario:
             lines.append("stream %sr" % p)
             lines.append("stream %sw" % p)
         for k in self.procs:
-            lines.append("proc %s" % k)
+            lines.append("proc %s %s" % (k, self.procflags.get(k, "p")))
         for kl in klines:
             lines.append("k" + kl[1:])
         for name, toks in fibers:
@@ -233,7 +265,7 @@ class Scenario:
 # The A x B x abandon x fire matrix
 # =====================================================================================================
 
-A_KINDS = ["sleep", "take", "give", "seltake", "selgive", "read", "readT", "write", "pwait", "dl"]
+A_KINDS = ["sleep", "take", "give", "seltake", "selgive", "read", "readT", "write", "pwait", "pwaitx", "dl"]
 # calls that fail early with an error although they carry a timeout / deadline: (name, janet expression)
 BAD_CALLS = [
     ("read-neg", '(ev/read pAr -1 @"" 0.015)'), ("read-kw", '(ev/read pAr :bogus @"" 0.015)'), ("read-float", '(ev/read pAr 1.5 @"" 0.015)'),
@@ -253,7 +285,7 @@ BAD_CALLS = [
     ("dl-select-badclause", '(ev/with-deadline 0.015 (ev/select cC2 [:notchan 1]))'),
 ]
 
-B_KINDS = ["sleep", "take", "give", "seltake", "selgive", "read", "write", "pwait", "dl", "dlx", "same"]
+B_KINDS = ["sleep", "take", "give", "seltake", "selgive", "read", "write", "pwait", "pwaitx", "dl", "dlx", "same"]
 
 
 def a_variants():
@@ -281,6 +313,7 @@ def a_variants():
             "readT": ["write", "pass"],
             "write": ["drain", "closer", "closew"],
             "pwait": ["exit"],
+            "pwaitx": ["exit"],
             "dl": ["pass"],
         }[a]
         if a in ("seltake", "selgive"):
@@ -334,6 +367,10 @@ def build(sid, a, ab, fi, b, extra=None):
         A = ("write", "pA", 70000, "a")
     elif a == "pwait":
         s.proc("kA")
+        A = ("pwait", "kA")
+    elif a == "pwaitx":
+        # the process was spawned with :x — its non-zero exit status is delivered as an ERROR (janet_cancel branch of the callback)
+        s.proc("kA", "px")
         A = ("pwait", "kA")
     elif a == "dl":
         s.chan("cZ", 1)
@@ -393,6 +430,10 @@ def build(sid, a, ab, fi, b, extra=None):
         s.proc("kB")
         B = ("pwait", "kB")
         b_val = "7"
+    elif b == "pwaitx":
+        s.proc("kB", "px")
+        B = ("pwait", "kB")
+        b_val = '(:err,"command_failed_with_non-zero_exit_code_7")'
     elif b == "dl":
         s.chan("cB", 0)
         B = ("deadline", 50, ("take", "cB"))
@@ -420,6 +461,12 @@ def build(sid, a, ab, fi, b, extra=None):
             return None
     F.append(B)
     F.append(("sleep", 0))         # a third, trivial wait: F must get through it undisturbed
+    # nest: all of F's waits happen inside one (or two) child fibers of the task that stay suspended across the waits — the task
+    # itself (the root fiber, on which every registration is made) is then never the fiber that executes the next instruction
+    nest = extra.get("nest", "")
+    for kind in reversed([k for k in nest.split("+") if k]):
+        F = [("block", kind, F)]
+    s.meta["nest"] = nest or "none"
     # ------------------------------------------------------------------ driver M
     # shadow sleeper Z: a LIVE timer just before the stale ones (tick 15).  In late-wake mode (loop wakes 2 ms late) Z's timer
     # and the stale timer expire in the same timer phase, so the stale one is judged there and not dropped by the poll phase
@@ -501,7 +548,7 @@ def build(sid, a, ab, fi, b, extra=None):
         M.append(("write", "pB", 4, "B"))
     elif b == "write":
         M.append(("spawn", "HB", [("chunk", "pB", 70000)]))
-    elif b == "pwait":
+    elif b in ("pwait", "pwaitx"):
         M.append(("exitproc", "kB"))
     elif b == "same":
         if a in ("take", "seltake", "dl"):
@@ -613,6 +660,8 @@ b_res_r = a_res_r
 
 
 DIRTS = ["", "r1", "r3", "w2r2"]
+NESTS = ["try", "defer+try", "coro"]
+STREAMY = ("read", "readT", "write")
 
 
 def matrix(dirts=DIRTS):
@@ -628,6 +677,17 @@ def matrix(dirts=DIRTS):
                     continue
                 n += 1
                 out.append(sc)
+                if d:
+                    continue
+                # the same program with F's body inside child fibers; two levels / coro only where a stream is involved
+                for ns in NESTS:
+                    if ns != "try" and not (a in STREAMY or b in ("read", "write") or a.startswith("pwait") or b.startswith("pwait")):
+                        continue
+                    if a.startswith("bad:") and ns != "try":
+                        continue
+                    sc = build("m%04d-%s-%s-%s-%s-n%s" % (n, a.replace(":", "_"), ab, fi, b, ns.replace("+", "_")), a, ab, fi, b, {"nest": ns})
+                    n += 1
+                    out.append(sc)
     return out
 
 
@@ -742,4 +802,55 @@ def deadline_scenarios():
               ("sleep", 20), ("give", "c", "v1"), ("sleep", 20)]
     s.expect = {"resumes": {"F": [(0, "nil"), (10, '"deadline_expired"')], "G": [(0, "nil"), (20, ":v1")]}}
     out.append(s)
+    return out
+
+
+# =====================================================================================================
+# corpus: a task that is scheduled while it is still running (ev/cancel / ev/go on itself) — the schedule aborts the NEXT wait;
+# that wait's registration must be stale afterwards (finding: patches/fix-C07-resume-bumps-generation.diff)
+# =====================================================================================================
+
+def corpus_scenarios():
+    out = []
+    for how in ("cancel", "go"):
+        for a in ("take", "give", "seltake", "sleep", "pwait", "read"):
+            for b in ("take", "sleep"):
+                s = Scenario("c-self%s-%s-%s" % (how, a, b))
+                s.meta = {"A": a, "B": b, "abandon": "self-" + how, "fire": "late", "dirt": "none", "nest": "none"}
+                s.chan("cB", 0)
+                fire, item = [], None
+                if a == "take":
+                    s.chan("cA", 1); A = ("take", "cA"); fire = [("give", "cA", "va")]; item = ("cA", ":va")
+                elif a == "give":
+                    s.chan("cA", 0); A = ("give", "cA", "xa"); fire = [("spawn", "H", [("deadline", 3, ("take", "cA"))])]
+                elif a == "seltake":
+                    s.chan("cA", 1); s.chan("cX", 1); A = ("select", [("take", "cA"), ("take", "cX")]); fire = [("give", "cA", "va")]; item = ("cA", ":va")
+                elif a == "sleep":
+                    A = ("sleep", 15)
+                elif a == "pwait":
+                    s.proc("kA"); A = ("pwait", "kA"); fire = [("exitproc", "kA")]
+                elif a == "read":
+                    s.pipe("pA"); A = ("read", "pA", 10); fire = [("write", "pA", 4, "A")]; item = ("pA", '@"AAAA"')
+                B = ("take", "cB") if b == "take" else ("sleep", 40)
+                self_sched = ("cancel", "F", "self") if how == "cancel" else ("goself",)
+                F = [self_sched, A, B, ("sleep", 0)]
+                M = [("spawn", "Z", [("sleep", 14)]), ("spawn", "F", F), ("sleep", 10), ("dump", "prefire")] + fire + \
+                    [("sleep", 10), ("dump", "postfire"), ("sleep", 20)]
+                if b == "take":
+                    M.append(("give", "cB", "vb"))
+                M += [("sleep", 30), ("dump", "final")]
+                m_final = []
+                if item and item[0].startswith("c"):
+                    m_final.append(("m%d" % len(M), "1")); M.append(("count", item[0]))
+                    m_final.append(("m%d" % len(M), item[1])); M.append(("take", item[0]))
+                elif item:
+                    m_final.append(("m%d" % len(M), item[1])); M.append(("read", item[0], 10))
+                s.main = M
+                a_val = '"self"' if how == "cancel" else "nil"
+                s.expect = {"resumes": {"F": [(0, "nil"), (0, a_val), (40, ":vb" if b == "take" else "nil"), (40, "nil")]},
+                            "m_final": m_final,
+                            "sig": "self-scheduled-wait-left-live-registration",
+                            "what": "F scheduled itself (ev/%s on the running task), which aborts its next wait A=%s; the registration of "
+                                    "that aborted wait must be stale, yet later activity on A reached F in its next wait B=%s" % (how, a, b)}
+                out.append(s)
     return out
